@@ -167,6 +167,7 @@ def check(ctx):
 
     # --- nothing is published before the drain ------------------------------
     check_publish_after_drain(ctx, sites)
+    check_dispatch_failures_not_absorbed(ctx, sites)
 
     # --- the mapping run -----------------------------------------------------
     check_run_mapping(ctx)
@@ -763,3 +764,66 @@ def check_blob_to_hdf5(ctx):
     else:
         ctx.fail(rule + '/metadata', 'blob_to_hdf5:metadata', fi.loc(),
                  'metadata dataset is not written when results are absent')
+
+
+def check_dispatch_failures_not_absorbed(ctx, sites,
+                                         rule='R-HANDLER/dispatch-failure'):
+    """a failed worker reaches the caller as the RuntimeError the drain
+    raises.  Between the drain and the stage's caller nothing absorbs it:
+    in every function that (transitively) starts workers, a handler that
+    can catch that error (bare, Exception, BaseException, RuntimeError) on
+    a `try` whose body calls a function that starts workers re-raises on
+    every path -- no fallback computation, no retry, no conditional
+    raise."""
+    db = ctx.db
+    direct, spawners = spawner_functions(ctx, sites)
+    catching = set(W.BROAD) | {'RuntimeError', '<bare>'}
+    n = 0
+    n_fn = 0
+    for q in sorted(spawners):
+        fi = db.functions.get(q)
+        if fi is None or fi.module.short.startswith('gpu_utils'):
+            continue
+        n_fn += 1
+        cfg = cfg_of(fi)
+        rd = rd_of(fi)
+        for t in ast.walk(fi.node):
+            if not isinstance(t, ast.Try) or not t.handlers:
+                continue
+            # does the body call a function that starts workers (or drain
+            # a pool)?
+            calls_spawner = False
+            for c in ast.walk(ast.Module(body=t.body, type_ignores=[])):
+                if not isinstance(c, ast.Call):
+                    continue
+                tt = resolve_callee(db, fi, c)
+                if isinstance(tt, FunctionInfo) and tt.qual in spawners:
+                    calls_spawner = True
+                nm = getattr(c.func, 'id', getattr(c.func, 'attr', None))
+                if nm in ('winnow_process_list', 'winnow_process_dict'):
+                    calls_spawner = True
+            if not calls_spawner:
+                continue
+            for h in t.handlers:
+                names = set(W.handler_names(h))
+                if not (names & catching):
+                    continue
+                hn = [x for x in cfg.nodes if x.kind == 'handler'
+                      and x.ast is h and x.id in rd.live]
+                if not hn:
+                    continue
+                n += 1
+                ok = all(W.handler_reraises(cfg, x) for x in hn)
+                ctx.touch(fi)
+                ctx.ob(rule, f'{fi.qual}:except {",".join(sorted(names))}',
+                       fi.loc(h), ok,
+                       'the handler re-raises on every path' if ok else
+                       f'`except {", ".join(sorted(names))}` around the '
+                       f'dispatch in {fi.name} can complete without '
+                       're-raising: the failure of a worker is absorbed '
+                       '(fallback, retry or conditional raise) and the '
+                       'stage returns normally')
+    ctx.ok(rule, 'dispatch-closure', 'package',
+           f'{n_fn} functions that start workers (directly or through '
+           f'callees) scanned; {n} handler(s) around a dispatch found',
+           nontrivial=True)
